@@ -242,13 +242,14 @@ def render(spec):
     log_parts, scr_parts, marks = [], [], []
     off = 0
     echo_to_screen = bool(spec.get('echo_screen'))
+    nl = '\r\n' if spec.get('crlf') else '\n'       # a Windows build writes its log in text mode
     for line, tag, screen in L:
         if screen != 'only':
             marks.append((off, tag))
-            log_parts.append(line + '\n')
-            off += len((line + '\n').encode('utf-8'))
+            log_parts.append(line + nl)
+            off += len((line + nl).encode('utf-8'))
         if screen is True or screen == 'only' or (tag == 'echo' and echo_to_screen):
-            scr_parts.append(line + '\n')
+            scr_parts.append(line + nl)
     marks.append((off, 'end'))
     return {'log': ''.join(log_parts), 'screen': ''.join(scr_parts), 'marks': marks, 'steps': steps}
 
